@@ -310,6 +310,9 @@ pub fn c11_group_case(rs: u64, _nonce: u64, replay: Option<Vec<u32>>) -> CaseOut
     };
     let specs: Vec<netgen::DevSpec> = (0..n).map(|i| netgen::gen_device(&mut t, &cfg, i)).collect();
     let to_op = t.flag(60, 100, "to_op");
+    // gen >= 2: third variant, the non-waiting request from SAFE-OP (request_into_op), whose only
+    // datagram per member is the state request itself.
+    let nowait = crate::tape::gen() >= 2 && t.flag(25, 100, "request_into_op");
     let wcfg = WorldCfg {
         static_sync_iterations: 0,
         state_transition_us: 2_000,
@@ -320,7 +323,7 @@ pub fn c11_group_case(rs: u64, _nonce: u64, replay: Option<Vec<u32>>) -> CaseOut
         ..WorldCfg::default()
     };
     // One execution: init on a healthy segment, then the transition with the fault armed.
-    let run = |fault: Option<(u8, u64)>, tape: Tape| -> (Result<Result<(), Error>, SimError>, u64, bool, Tape) {
+    let run = |fault: Option<(u8, u64)>, tape: Tape| -> (Result<Result<(), Error>, SimError>, u64, bool, Tape, Option<(u8, u16)>) {
         let devices: Vec<crate::esc::Device> = specs.iter().map(netgen::build_device).collect();
         let seg = Segment::chain(devices);
         let mut w = World::new(&wcfg, seg, tape);
@@ -328,9 +331,31 @@ pub fn c11_group_case(rs: u64, _nonce: u64, replay: Option<Vec<u32>>) -> CaseOut
         let md = w.md();
         let group: SubDeviceGroup<8, 256> = match w.sim.block_on(md.init_single_group::<8, 256>(now_ns)) {
             Ok(Ok(g)) => g,
-            Ok(Err(e)) => return (Ok(Err(e)), 0, false, Tape::replay(vec![])),
-            Err(e) => return (Err(e), 0, false, Tape::replay(vec![])),
+            Ok(Err(e)) => return (Ok(Err(e)), 0, false, Tape::replay(vec![]), None),
+            Err(e) => return (Err(e), 0, false, Tape::replay(vec![]), None),
         };
+        if nowait {
+            // Healthy prefix: PRE-OP -> SAFE-OP, then the judged request.
+            let safe = match w.sim.block_on(group.into_safe_op(md)) {
+                Ok(Ok(g)) => g,
+                Ok(Err(e)) => return (Ok(Err(e)), 0, false, Tape::replay(vec![]), None),
+                Err(e) => return (Err(e), 0, false, Tape::replay(vec![]), None),
+            };
+            let base = w.sim.seg.devices[target].serviced_counter;
+            match fault {
+                Some((0, j)) => w.sim.seg.devices[target].faults.dropout_from = Some(base + j),
+                Some((1, j)) => w.sim.seg.devices[target].faults.skip_one = Some(base + j),
+                Some((_, v)) => w.sim.seg.devices[target].wkc_tamper = Some(v as i32),
+                None => {}
+            }
+            let r = w.sim.block_on(safe.request_into_op(md)).map(|r| r.map(|_| ()));
+            let m = w.sim.seg.devices[target].serviced_counter - base;
+            // The request is not waited for: "all there" means every member at least took it.
+            let all_there = w.sim.seg.devices.iter().all(|d| d.first_refused.is_none());
+            let fr = w.sim.seg.devices[target].first_refused;
+            let tape = std::mem::replace(&mut w.sim.tape, Tape::replay(vec![]));
+            return (r, m, all_there, tape, fr);
+        }
         let base = w.sim.seg.devices[target].serviced_counter;
         match fault {
             Some((0, j)) => w.sim.seg.devices[target].faults.dropout_from = Some(base + j),
@@ -342,11 +367,12 @@ pub fn c11_group_case(rs: u64, _nonce: u64, replay: Option<Vec<u32>>) -> CaseOut
         let m = w.sim.seg.devices[target].serviced_counter - base;
         let want = if to_op { ST_OP } else { crate::esc::ST_SAFEOP };
         let all_there = w.sim.seg.devices.iter().all(|d| d.al_state == want && !d.al_error);
+        let fr = w.sim.seg.devices[target].first_refused;
         let tape = std::mem::replace(&mut w.sim.tape, Tape::replay(vec![]));
-        (r, m, all_there, tape)
+        (r, m, all_there, tape, fr)
     };
-    let name = if to_op { "into_op" } else { "into_safe_op" };
-    let (healthy, m, _, mut tape) = run(None, t);
+    let name = if nowait { "request_into_op" } else if to_op { "into_op" } else { "into_safe_op" };
+    let (healthy, m, _, mut tape, _) = run(None, t);
     let mut positions = 0u64;
     let mut runs = 0u64;
     match healthy {
@@ -360,8 +386,23 @@ pub fn c11_group_case(rs: u64, _nonce: u64, replay: Option<Vec<u32>>) -> CaseOut
                         break;
                     }
                     runs += 1;
-                    let (r, _, all_there, t2) = run(Some((kind, j)), tape);
+                    let (r, _, all_there, t2, first_refused) = run(Some((kind, j)), tape);
                     tape = t2;
+                    // The state request itself (FPWR to AL control) is an access that hands the
+                    // device's acknowledgement back: if it is the datagram that went unanswered the
+                    // caller must get the working-counter error with both counts.
+                    if first_refused == Some((crate::wire::CMD_FPWR, 0x0120)) {
+                        *out.probes.entry("state_request_unanswered".into()).or_insert(0) += 1;
+                        match &r {
+                            Ok(Err(Error::WorkingCounter { expected: 1, received: 0 })) => {}
+                            Err(_) => {}
+                            other => {
+                                let mut x = viol("state-request-unanswered-not-reported", format!("{}: member {}'s state request (FPWR 0x0120) was not serviced (fault {} at datagram {}); the call returned {:?} instead of WorkingCounter {{ expected: 1, received: 0 }}", name, target, if kind == 0 { "silent from" } else { "single datagram unanswered" }, j, other.as_ref().map(|x| x.as_ref().map(|_| "Ok"))));
+                                x.signature = format!("state-request-unanswered-not-reported@{}", name);
+                                out.violations.push(x);
+                            }
+                        }
+                    }
                     match r {
                         Err(SimError::Panic(p)) => out.violations.push(viol("panic", format!("{} panicked with member {} {} datagram {}: {}", name, target, if kind == 0 { "silent from" } else { "not answering" }, j, p))),
                         Err(e) => out.violations.push(sim_error_violation(name, &e)),
@@ -383,7 +424,7 @@ pub fn c11_group_case(rs: u64, _nonce: u64, replay: Option<Vec<u32>>) -> CaseOut
                     break;
                 }
                 runs += 1;
-                let (r, _, _, t2) = run(Some((2, tamper)), tape);
+                let (r, _, _, t2, _) = run(Some((2, tamper)), tape);
                 tape = t2;
                 if let Ok(Ok(())) = r {
                     let mut x = viol("tampered-counter-accepted", format!("{}: every working counter of member {} came back as {} yet the transition returned Ok", name, target, tamper));
